@@ -3,3 +3,7 @@ claim("C11", "model_checking",
       "Frag.tla models the reassembly queue, timer FIFO, id reuse and malformed/inconsistent fragments; TLC checks OutSound/AtMostOncePerSet/Complete/Discarded over all interleavings within the cfg constants, enumerates every bounded call sequence (spec->impl: each replayed on the real Fragments<Frame> with real frames, return value and queue length compared per call), judges the (len,mtu) size grid, and validates random call logs of the real object (impl->spec, TraceFrag).",
       "Bounded: <=4 model frames, <=3 fragments each in the exhaustive part (real frames up to 65535 bytes / 127 fragments in the grid); time is virtual (vtrace::skew hook); premise: id reuse only after the earlier user is gone.",
       "TLA+ model checking (TLC) + exhaustive behaviour replay + trace validation", "DESIGN.md §4 C11")
+claim("C09", "model_checking",
+      "MiluGrammar.tla holds the README operator table as data (spelling, precedence, associativity, arity) and defines Minimal(t), Full(t), Sexpr(t); TLC enumerates every operator alone, every ordered pair in every operand slot, every chain of three and every fork (thorough: full vocabulary + random chains to depth 6); each rendering is parsed by the real milu::parser::parse and must print as Sexpr(t); every filler (blank, tab, newline, comments incl. empty ones) is put at every token boundary of singles and pairs.",
+      "Exhaustive to 3 operators (quick uses one representative spelling per precedence level from depth 3); leaves are identifiers; the parser's Display of the tree is the observation point.",
+      "TLA+ case enumeration (TLC) replayed on the real parser", "DESIGN.md §4 C09")
